@@ -86,6 +86,62 @@ class RandomChooser:
     return self.rng.randrange(n)
 
 
+class PctChooser:
+  """Priority-based scheduling with a few priority change points (PCT).
+
+  Uniform random choice at every step almost never keeps one runnable thread
+  waiting for hundreds of steps, which is what some interleavings need (a woken
+  consumer that does not run until the producer has put twice more).  Here every
+  thread gets a random priority when it is first seen, the runnable thread of
+  highest priority always runs, and at `depth` step numbers drawn in advance the
+  running thread drops below everybody else.  A thread that keeps being chosen
+  for `patience` consecutive decisions without blocking (a polling loop) is
+  demoted too, and a small share of decisions is uniform, so nothing starves for
+  ever.  Non-scheduling decisions (drawn values) stay uniform.
+  Decisions are recorded as indices like everybody else's: replay and
+  minimisation do not depend on this class.
+  """
+
+  def __init__(self, seed, depth=2, horizon=3000, patience=400, uniform=0.03):
+    self.rng = random.Random(seed)
+    self.prio = {}
+    self.low = 0.0
+    self.step = 0
+    self.changes = sorted(self.rng.randrange(1, horizon) for _ in range(depth))
+    self.patience = patience
+    self.uniform = uniform
+    self.last = None
+    self.run = 0
+
+  def choose(self, n, kind):
+    return self.rng.randrange(n)
+
+  def choose_thread(self, tids):
+    """tids[0] is the current thread if it is runnable (see Sim)."""
+    self.step += 1
+    for t in tids:
+      if t not in self.prio:
+        self.prio[t] = 1.0 + self.rng.random()
+    cur = tids[0]
+    while self.changes and self.step >= self.changes[0]:
+      self.changes.pop(0)
+      self.low -= 1.0
+      self.prio[cur] = self.low
+    if self.rng.random() < self.uniform:
+      i = self.rng.randrange(len(tids))
+    else:
+      i = max(range(len(tids)), key=lambda j: self.prio[tids[j]])
+    if tids[i] == self.last:
+      self.run += 1
+      if self.run > self.patience:
+        self.low -= 1.0
+        self.prio[tids[i]] = self.low
+        self.run = 0
+    else:
+      self.last, self.run = tids[i], 0
+    return i
+
+
 class ScriptedChooser:
   """Replays a decision list; beyond its end every choice is 0 (= stay)."""
 
@@ -331,7 +387,12 @@ class Sim:
         i = cands.index(me)
         if i:
           cands.insert(0, cands.pop(i))
-      nxt = cands[self.choose(len(cands), 's')]
+      if hasattr(self.chooser, 'choose_thread'):
+        c = self.chooser.choose_thread([t.tid for t in cands])
+        self.decisions.append(c)
+        nxt = cands[c]
+      else:
+        nxt = cands[self.choose(len(cands), 's')]
     else:
       nxt = cands[0]
     self.log('r', nxt.tid)
